@@ -3,5 +3,6 @@ import YawVerif.Model.Proto
 import YawVerif.Drv.Common
 import YawVerif.Props.C03
 import YawVerif.Props.C04
+import YawVerif.Props.C10
 import YawVerif.Props.C17
 import YawVerif.Drv.Cont
